@@ -163,6 +163,7 @@ def run(ctx):
     for v in outs:
         _, case, a, b, res = v
         ok = compare(ctx, case, a, b, res)
+        ctx.again(compare, ctx, case, a, b, res)
         seen_ops.add(case)
         ctx.replayed += 1
         ctx.count((case, a, b), nontrivial=True)
@@ -170,6 +171,7 @@ def run(ctx):
             ctx.sample({'case': case, 'a': to_py(a), 'b': to_py(b) if case[2] != '-' else None, 'model': to_json(res)}, limit=8)
     if seen_ops != set(CASES):
         raise Exception('vacuity: cases not exported: %s' % (set(CASES) - seen_ops))
+    ctx.second_pass()
     ctx.exhaustive = True
 
 
